@@ -86,6 +86,16 @@ def _quant(spec):
     return f
 
 
+def _scaled(spec):
+    """k * inner(y): the same minimisers, other values."""
+    inner = build(spec["inner"])
+    k = float(spec["k"])
+
+    def f(y):
+        return k * inner(y)
+    return f
+
+
 def _shipped(spec):
     """A real benchmark problem from iOpt/problems, evaluated on a private instance."""
     prob = make_shipped(spec)
@@ -126,7 +136,7 @@ def make_shipped(spec):
 
 _BUILDERS = {
     "cones": _cones, "sines": _sines, "paraboloid": _paraboloid, "linear": _linear,
-    "const": _const, "quant": _quant, "shipped": _shipped,
+    "const": _const, "quant": _quant, "shipped": _shipped, "scaled": _scaled,
 }
 
 
